@@ -977,4 +977,522 @@ theorem rabs_lt_iff_of_int (q : Rat) (n : Int) (h : q = n) (tol : Rat) (h0 : 0 <
     rabs q < tol ↔ q = 0 := by
   rw [h, abs_lt_tol_iff n tol h0 h1]; exact_mod_cast Iff.rfl
 
+/-! ## §6  Soundness of the specification: its points are the common points of the segments -/
+
+theorem onSeg3_iff_lineAt (p a b : P3) :
+    OnSeg3 p a b ↔ ∃ t : Rat, 0 ≤ t ∧ t ≤ 1 ∧ p = lineAt a b t := by
+  constructor
+  · rintro ⟨t, h0, h1, hx, hy, hz⟩
+    exact ⟨t, h0, h1, by cases p; simp only [lineAt, P3.mk.injEq]; exact ⟨hx, hy, hz⟩⟩
+  · rintro ⟨t, h0, h1, rfl⟩
+    exact ⟨t, h0, h1, rfl, rfl, rfl⟩
+
+theorem lineAt_inj (a b : P3) (hd : b.x - a.x ≠ 0 ∨ b.y - a.y ≠ 0 ∨ b.z - a.z ≠ 0) (s t : Rat)
+    (h : lineAt a b s = lineAt a b t) : s = t := by
+  simp only [lineAt, P3.mk.injEq] at h
+  obtain ⟨hx, hy, hz⟩ := h
+  rcases hd with h | h | h
+  · exact mul_right_cancel₀ h (by linarith)
+  · exact mul_right_cancel₀ h (by linarith)
+  · exact mul_right_cancel₀ h (by linarith)
+
+theorem lineAt_lineAt (a b : P3) (s t u : Rat) :
+    lineAt (lineAt a b s) (lineAt a b t) u = lineAt a b (s + u * (t - s)) := by
+  simp only [lineAt, P3.mk.injEq]
+  refine ⟨?_, ?_, ?_⟩ <;> ring
+
+theorem between_iff (ts te s : Rat) (hne : ts ≠ te) :
+    (min ts te ≤ s ∧ s ≤ max ts te) ↔ ∃ t : Rat, 0 ≤ t ∧ t ≤ 1 ∧ s = ts + t * (te - ts) := by
+  constructor
+  · rintro ⟨h1, h2⟩
+    have hd : te - ts ≠ 0 := sub_ne_zero.mpr (Ne.symm hne)
+    refine ⟨(s - ts) / (te - ts), ?_, ?_, by field_simp; ring⟩
+    · rcases lt_or_gt_of_ne hne with h | h
+      · rw [min_eq_left (le_of_lt h)] at h1
+        exact div_nonneg (by linarith) (by linarith)
+      · rw [min_eq_right (le_of_lt h)] at h1; rw [max_eq_left (le_of_lt h)] at h2
+        exact div_nonneg_of_nonpos (by linarith) (by linarith)
+    · rcases lt_or_gt_of_ne hne with h | h
+      · rw [max_eq_right (le_of_lt h)] at h2
+        rw [div_le_one (by linarith)]; linarith
+      · rw [min_eq_right (le_of_lt h)] at h1
+        rw [div_le_one_of_neg (by linarith)]; linarith
+  · rintro ⟨t, h0, h1, rfl⟩
+    rcases lt_or_gt_of_ne hne with h | h
+    · rw [min_eq_left (le_of_lt h), max_eq_right (le_of_lt h)]
+      constructor <;> nlinarith
+    · rw [min_eq_right (le_of_lt h), max_eq_left (le_of_lt h)]
+      constructor <;> nlinarith
+
+theorem mem_overlapParam_iff (p a b : P3) (ts te : Rat) :
+    Res.Mem3 p (overlapParam (lineAt a b) ts te) ↔
+      ∃ s : Rat, max (min ts te) 0 ≤ s ∧ s ≤ min (max ts te) 1 ∧ p = lineAt a b s := by
+  unfold overlapParam
+  simp only []
+  generalize max (min ts te) 0 = lo
+  generalize min (max ts te) 1 = hi
+  by_cases h1 : hi < lo
+  · rw [if_pos h1]
+    simp only [Res.Mem3, false_iff]
+    rintro ⟨s, h2, h3, -⟩; linarith
+  · rw [if_neg h1]
+    by_cases h2 : lo = hi
+    · rw [if_pos h2]
+      simp only [Res.Mem3]
+      constructor
+      · rintro rfl; exact ⟨lo, le_refl _, le_of_eq h2, rfl⟩
+      · rintro ⟨s, h3, h4, rfl⟩
+        have : s = lo := le_antisymm (by linarith) h3
+        rw [this]
+    · rw [if_neg h2]
+      have hlt : lo < hi := lt_of_le_of_ne (not_lt.mp h1) h2
+      simp only [Res.Mem3, onSeg3_iff_lineAt, lineAt_lineAt]
+      constructor
+      · rintro ⟨u, h3, h4, rfl⟩
+        exact ⟨lo + u * (hi - lo), by nlinarith, by nlinarith, rfl⟩
+      · rintro ⟨s, h3, h4, rfl⟩
+        refine ⟨(s - lo) / (hi - lo), div_nonneg (by linarith) (by linarith), ?_, ?_⟩
+        · rw [div_le_one (by linarith)]; linarith
+        · congr 1; field_simp; ring
+
+theorem col_mem_iff (p a b : P3) (hd : b.x - a.x ≠ 0 ∨ b.y - a.y ≠ 0 ∨ b.z - a.z ≠ 0) (ts te : Rat) (hne : ts ≠ te) :
+    (OnSeg3 p a b ∧ OnSeg3 p (lineAt a b ts) (lineAt a b te)) ↔
+      Res.Mem3 p (overlapParam (lineAt a b) ts te) := by
+  rw [mem_overlapParam_iff]
+  simp only [onSeg3_iff_lineAt, lineAt_lineAt]
+  constructor
+  · rintro ⟨⟨s, h0, h1, rfl⟩, ⟨t, h2, h3, h4⟩⟩
+    have hs := lineAt_inj a b hd _ _ h4
+    have hb := (between_iff ts te s hne).mpr ⟨t, h2, h3, hs⟩
+    exact ⟨s, max_le hb.1 h0, le_min hb.2 h1, rfl⟩
+  · rintro ⟨s, h1, h2, rfl⟩
+    have h3 := le_trans (le_max_left _ _) h1
+    have h4 := le_trans (le_max_right _ _) h1
+    have h5 := le_trans h2 (min_le_left _ _)
+    have h6 := le_trans h2 (min_le_right _ _)
+    obtain ⟨t, ht0, ht1, hst⟩ := (between_iff ts te s hne).mp ⟨h3, h5⟩
+    exact ⟨⟨s, h4, h6, rfl⟩, ⟨t, ht0, ht1, by rw [hst]⟩⟩
+
+theorem cross_unique (u1 v1 w1 u2 v2 w2 sx sy sz s t : Rat)
+    (hx : s * u1 - t * u2 = sx) (hy : s * v1 - t * v2 = sy) (hz : s * w1 - t * w2 = sz) :
+    sx * (v1 * w2 - w1 * v2) + sy * (w1 * u2 - u1 * w2) + sz * (u1 * v2 - v1 * u2) = 0 ∧
+    s * ((v1 * w2 - w1 * v2) * (v1 * w2 - w1 * v2) + (w1 * u2 - u1 * w2) * (w1 * u2 - u1 * w2)
+        + (u1 * v2 - v1 * u2) * (u1 * v2 - v1 * u2))
+      = (sy * w2 - sz * v2) * (v1 * w2 - w1 * v2) + (sz * u2 - sx * w2) * (w1 * u2 - u1 * w2)
+        + (sx * v2 - sy * u2) * (u1 * v2 - v1 * u2) ∧
+    t * ((v1 * w2 - w1 * v2) * (v1 * w2 - w1 * v2) + (w1 * u2 - u1 * w2) * (w1 * u2 - u1 * w2)
+        + (u1 * v2 - v1 * u2) * (u1 * v2 - v1 * u2))
+      = (sy * w1 - sz * v1) * (v1 * w2 - w1 * v2) + (sz * u1 - sx * w1) * (w1 * u2 - u1 * w2)
+        + (sx * v1 - sy * u1) * (u1 * v2 - v1 * u2) := by
+  subst hx hy hz
+  refine ⟨by ring, by ring, by ring⟩
+
+theorem cross_exist (u1 v1 w1 u2 v2 w2 sx sy sz : Rat)
+    (hdn : sx * (v1 * w2 - w1 * v2) + sy * (w1 * u2 - u1 * w2) + sz * (u1 * v2 - v1 * u2) = 0)
+    (hnn : (v1 * w2 - w1 * v2) * (v1 * w2 - w1 * v2) + (w1 * u2 - u1 * w2) * (w1 * u2 - u1 * w2)
+        + (u1 * v2 - v1 * u2) * (u1 * v2 - v1 * u2) ≠ 0) :
+    let t1 := ((sy * w2 - sz * v2) * (v1 * w2 - w1 * v2) + (sz * u2 - sx * w2) * (w1 * u2 - u1 * w2)
+        + (sx * v2 - sy * u2) * (u1 * v2 - v1 * u2)) /
+      ((v1 * w2 - w1 * v2) * (v1 * w2 - w1 * v2) + (w1 * u2 - u1 * w2) * (w1 * u2 - u1 * w2)
+        + (u1 * v2 - v1 * u2) * (u1 * v2 - v1 * u2))
+    let t2 := ((sy * w1 - sz * v1) * (v1 * w2 - w1 * v2) + (sz * u1 - sx * w1) * (w1 * u2 - u1 * w2)
+        + (sx * v1 - sy * u1) * (u1 * v2 - v1 * u2)) /
+      ((v1 * w2 - w1 * v2) * (v1 * w2 - w1 * v2) + (w1 * u2 - u1 * w2) * (w1 * u2 - u1 * w2)
+        + (u1 * v2 - v1 * u2) * (u1 * v2 - v1 * u2))
+    t1 * u1 - t2 * u2 = sx ∧ t1 * v1 - t2 * v2 = sy ∧ t1 * w1 - t2 * w2 = sz := by
+  intro t1 t2
+  simp only [t1, t2]
+  generalize hN : (v1 * w2 - w1 * v2) * (v1 * w2 - w1 * v2) + (w1 * u2 - u1 * w2) * (w1 * u2 - u1 * w2)
+        + (u1 * v2 - v1 * u2) * (u1 * v2 - v1 * u2) = N at hnn
+  refine ⟨?_, ?_, ?_⟩ <;> field_simp <;> rw [← hN]
+  · linear_combination (-(v1 * w2 - w1 * v2)) * hdn
+  · linear_combination (-(w1 * u2 - u1 * w2)) * hdn
+  · linear_combination (-(u1 * v2 - v1 * u2)) * hdn
+
+
+/-- colinear configuration: `c` and `d` are points of line 1, at the parameters used by the specification -/
+theorem col_points (a b c d : P3)
+    (pxy : (b.x - a.x) * (d.y - c.y) - (b.y - a.y) * (d.x - c.x) = 0)
+    (pxz : (b.x - a.x) * (d.z - c.z) - (b.z - a.z) * (d.x - c.x) = 0)
+    (pyz : (b.y - a.y) * (d.z - c.z) - (b.z - a.z) * (d.y - c.y) = 0)
+    (hcx : (c.y - a.y) * (b.z - a.z) - (c.z - a.z) * (b.y - a.y) = 0)
+    (hcy : (c.z - a.z) * (b.x - a.x) - (c.x - a.x) * (b.z - a.z) = 0)
+    (hcz : (c.x - a.x) * (b.y - a.y) - (c.y - a.y) * (b.x - a.x) = 0)
+    (nd1 : b.x - a.x ≠ 0 ∨ b.y - a.y ≠ 0 ∨ b.z - a.z ≠ 0) :
+    c = lineAt a b (((c.x - a.x) * (b.x - a.x) + (c.y - a.y) * (b.y - a.y) + (c.z - a.z) * (b.z - a.z)) /
+          ((b.x - a.x) * (b.x - a.x) + (b.y - a.y) * (b.y - a.y) + (b.z - a.z) * (b.z - a.z))) ∧
+    d = lineAt a b (((d.x - a.x) * (b.x - a.x) + (d.y - a.y) * (b.y - a.y) + (d.z - a.z) * (b.z - a.z)) /
+          ((b.x - a.x) * (b.x - a.x) + (b.y - a.y) * (b.y - a.y) + (b.z - a.z) * (b.z - a.z))) := by
+  obtain ⟨c1, c2, c3⟩ := proj_of_cross (c.x - a.x) (c.y - a.y) (c.z - a.z) (b.x - a.x) (b.y - a.y) (b.z - a.z)
+    hcx hcy hcz nd1
+  obtain ⟨d1', d2', d3'⟩ := proj_of_cross (d.x - a.x) (d.y - a.y) (d.z - a.z) (b.x - a.x) (b.y - a.y) (b.z - a.z)
+    (by linarith) (by linarith) (by linarith) nd1
+  generalize ((c.x - a.x) * (b.x - a.x) + (c.y - a.y) * (b.y - a.y) + (c.z - a.z) * (b.z - a.z)) /
+        ((b.x - a.x) * (b.x - a.x) + (b.y - a.y) * (b.y - a.y) + (b.z - a.z) * (b.z - a.z)) = ts at c1 c2 c3 ⊢
+  generalize ((d.x - a.x) * (b.x - a.x) + (d.y - a.y) * (b.y - a.y) + (d.z - a.z) * (b.z - a.z)) /
+        ((b.x - a.x) * (b.x - a.x) + (b.y - a.y) * (b.y - a.y) + (b.z - a.z) * (b.z - a.z)) = te at d1' d2' d3' ⊢
+  constructor
+  · cases c; simp only [lineAt, P3.mk.injEq] at *
+    exact ⟨by linarith, by linarith, by linarith⟩
+  · cases d; simp only [lineAt, P3.mk.injEq] at *
+    exact ⟨by linarith, by linarith, by linarith⟩
+
+theorem segInter3_cross (a b c d : P3)
+    (hn : (b.y - a.y) * (d.z - c.z) - (b.z - a.z) * (d.y - c.y) ≠ 0 ∨
+        (b.z - a.z) * (d.x - c.x) - (b.x - a.x) * (d.z - c.z) ≠ 0 ∨
+        (b.x - a.x) * (d.y - c.y) - (b.y - a.y) * (d.x - c.x) ≠ 0) :
+    segInter3 a b c d = spec3Cross a (b.x - a.x) (b.y - a.y) (b.z - a.z) (d.x - c.x) (d.y - c.y) (d.z - c.z)
+      (c.x - a.x) (c.y - a.y) (c.z - a.z) := by
+  unfold segInter3 spec3Cross
+  simp only []
+  rw [if_pos hn]
+
+/-- the non-parallel branch of the specification: its point is the unique common point of the
+    two segments `a + s·d1` and `(a + ds) + t·d2`, `s, t ∈ [0,1]` -/
+theorem mem_spec3Cross_iff (p a : P3) (u1 v1 w1 u2 v2 w2 sx sy sz : Rat)
+    (hn : v1 * w2 - w1 * v2 ≠ 0 ∨ w1 * u2 - u1 * w2 ≠ 0 ∨ u1 * v2 - v1 * u2 ≠ 0) :
+    Res.Mem3 p (spec3Cross a u1 v1 w1 u2 v2 w2 sx sy sz) ↔
+      ∃ s t : Rat, 0 ≤ s ∧ s ≤ 1 ∧ 0 ≤ t ∧ t ≤ 1 ∧
+        p.x = a.x + s * u1 ∧ p.y = a.y + s * v1 ∧ p.z = a.z + s * w1 ∧
+        p.x = a.x + sx + t * u2 ∧ p.y = a.y + sy + t * v2 ∧ p.z = a.z + sz + t * w2 := by
+  have hnn : (v1 * w2 - w1 * v2) * (v1 * w2 - w1 * v2) + (w1 * u2 - u1 * w2) * (w1 * u2 - u1 * w2)
+      + (u1 * v2 - v1 * u2) * (u1 * v2 - v1 * u2) ≠ 0 := by
+    rcases hn with h | h | h <;> have := mul_self_pos.mpr h <;>
+      nlinarith [mul_self_nonneg (v1 * w2 - w1 * v2), mul_self_nonneg (w1 * u2 - u1 * w2),
+        mul_self_nonneg (u1 * v2 - v1 * u2)]
+  have huniq := cross_unique u1 v1 w1 u2 v2 w2 sx sy sz
+  unfold spec3Cross
+  simp only []
+  by_cases hdn : sx * (v1 * w2 - w1 * v2) + sy * (w1 * u2 - u1 * w2) + sz * (u1 * v2 - v1 * u2) = 0
+  · rw [if_neg (not_not.mpr hdn)]
+    obtain ⟨ex, ey, ez⟩ := cross_exist u1 v1 w1 u2 v2 w2 sx sy sz hdn hnn
+    generalize (sy * w2 - sz * v2) * (v1 * w2 - w1 * v2) + (sz * u2 - sx * w2) * (w1 * u2 - u1 * w2)
+        + (sx * v2 - sy * u2) * (u1 * v2 - v1 * u2) = N1 at *
+    generalize (sy * w1 - sz * v1) * (v1 * w2 - w1 * v2) + (sz * u1 - sx * w1) * (w1 * u2 - u1 * w2)
+        + (sx * v1 - sy * u1) * (u1 * v2 - v1 * u2) = N2 at *
+    generalize (v1 * w2 - w1 * v2) * (v1 * w2 - w1 * v2) + (w1 * u2 - u1 * w2) * (w1 * u2 - u1 * w2)
+      + (u1 * v2 - v1 * u2) * (u1 * v2 - v1 * u2) = NN at *
+    have hst : ∀ s t : Rat, s * u1 - t * u2 = sx → s * v1 - t * v2 = sy → s * w1 - t * w2 = sz →
+        s = N1 / NN ∧ t = N2 / NN := by
+      intro s t hx hy hz
+      obtain ⟨-, h1, h2⟩ := huniq s t hx hy hz
+      exact ⟨by rw [eq_div_iff hnn]; exact h1, by rw [eq_div_iff hnn]; exact h2⟩
+    by_cases hr : 0 ≤ N1 / NN ∧ N1 / NN ≤ 1 ∧ 0 ≤ N2 / NN ∧ N2 / NN ≤ 1
+    · rw [if_pos hr]
+      simp only [Res.Mem3]
+      constructor
+      · rintro rfl
+        refine ⟨N1 / NN, N2 / NN, hr.1, hr.2.1, hr.2.2.1, hr.2.2.2, rfl, rfl, rfl, ?_, ?_, ?_⟩
+        · show a.x + N1 / NN * u1 = _; linarith
+        · show a.y + N1 / NN * v1 = _; linarith
+        · show a.z + N1 / NN * w1 = _; linarith
+      · rintro ⟨s, t, -, -, -, -, hx, hy, hz, hx', hy', hz'⟩
+        obtain ⟨rfl, rfl⟩ := hst s t (by linarith) (by linarith) (by linarith)
+        cases p; simp only [P3.mk.injEq] at *
+        exact ⟨hx, hy, hz⟩
+    · rw [if_neg hr]
+      simp only [Res.Mem3, false_iff]
+      rintro ⟨s, t, s0, s1, t0, t1, hx, hy, hz, hx', hy', hz'⟩
+      obtain ⟨rfl, rfl⟩ := hst s t (by linarith) (by linarith) (by linarith)
+      exact hr ⟨s0, s1, t0, t1⟩
+  · rw [if_pos hdn]
+    simp only [Res.Mem3, false_iff]
+    rintro ⟨s, t, -, -, -, -, hx, hy, hz, hx', hy', hz'⟩
+    exact hdn (huniq s t (by linarith) (by linarith) (by linarith)).1
+
+/-- SOUNDNESS of the 3-D specification: the points of `segInter3 a b c d` are exactly the common
+    points of the two closed segments (for segments of positive length) -/
+theorem mem_segInter3_iff' (p a b c d : P3)
+    (nd1 : b.x - a.x ≠ 0 ∨ b.y - a.y ≠ 0 ∨ b.z - a.z ≠ 0)
+    (nd2 : d.x - c.x ≠ 0 ∨ d.y - c.y ≠ 0 ∨ d.z - c.z ≠ 0) :
+    Res.Mem3 p (segInter3 a b c d) ↔ OnSeg3 p a b ∧ OnSeg3 p c d := by
+  by_cases hpar : (b.x - a.x) * (d.y - c.y) - (b.y - a.y) * (d.x - c.x) = 0 ∧
+      (b.x - a.x) * (d.z - c.z) - (b.z - a.z) * (d.x - c.x) = 0 ∧
+      (b.y - a.y) * (d.z - c.z) - (b.z - a.z) * (d.y - c.y) = 0
+  · obtain ⟨pxy, pxz, pyz⟩ := hpar
+    rw [segInter3_parallel a b c d pxy pxz pyz]
+    by_cases hcol : (c.y - a.y) * (b.z - a.z) - (c.z - a.z) * (b.y - a.y) ≠ 0 ∨
+         (c.z - a.z) * (b.x - a.x) - (c.x - a.x) * (b.z - a.z) ≠ 0 ∨
+         (c.x - a.x) * (b.y - a.y) - (c.y - a.y) * (b.x - a.x) ≠ 0
+    · rw [if_pos hcol]
+      simp only [Res.Mem3, false_iff]
+      rintro ⟨⟨s, -, -, hx, hy, hz⟩, ⟨t, -, -, hx', hy', hz'⟩⟩
+      have ex : c.x - a.x = s * (b.x - a.x) - t * (d.x - c.x) := by linarith
+      have ey : c.y - a.y = s * (b.y - a.y) - t * (d.y - c.y) := by linarith
+      have ez : c.z - a.z = s * (b.z - a.z) - t * (d.z - c.z) := by linarith
+      rcases hcol with h | h | h <;> apply h
+      · rw [ey, ez]; linear_combination t * pyz
+      · rw [ez, ex]; linear_combination (-t) * pxz
+      · rw [ex, ey]; linear_combination t * pxy
+    · rw [if_neg hcol]
+      have hcx : (c.y - a.y) * (b.z - a.z) - (c.z - a.z) * (b.y - a.y) = 0 := by
+        by_contra h; exact hcol (Or.inl h)
+      have hcy : (c.z - a.z) * (b.x - a.x) - (c.x - a.x) * (b.z - a.z) = 0 := by
+        by_contra h; exact hcol (Or.inr (Or.inl h))
+      have hcz : (c.x - a.x) * (b.y - a.y) - (c.y - a.y) * (b.x - a.x) = 0 := by
+        by_contra h; exact hcol (Or.inr (Or.inr h))
+      obtain ⟨hc, hd⟩ := col_points a b c d pxy pxz pyz hcx hcy hcz nd1
+      generalize ((c.x - a.x) * (b.x - a.x) + (c.y - a.y) * (b.y - a.y) + (c.z - a.z) * (b.z - a.z)) /
+        ((b.x - a.x) * (b.x - a.x) + (b.y - a.y) * (b.y - a.y) + (b.z - a.z) * (b.z - a.z)) = ts at hc ⊢
+      generalize ((d.x - a.x) * (b.x - a.x) + (d.y - a.y) * (b.y - a.y) + (d.z - a.z) * (b.z - a.z)) /
+        ((b.x - a.x) * (b.x - a.x) + (b.y - a.y) * (b.y - a.y) + (b.z - a.z) * (b.z - a.z)) = te at hd ⊢
+      have hne : ts ≠ te := by
+        rintro rfl
+        rw [hc, hd] at nd2
+        simp at nd2
+      rw [← col_mem_iff p a b nd1 ts te hne, ← hc, ← hd]
+  · -- non-parallel lines
+    have hn : (b.y - a.y) * (d.z - c.z) - (b.z - a.z) * (d.y - c.y) ≠ 0 ∨
+        (b.z - a.z) * (d.x - c.x) - (b.x - a.x) * (d.z - c.z) ≠ 0 ∨
+        (b.x - a.x) * (d.y - c.y) - (b.y - a.y) * (d.x - c.x) ≠ 0 := by
+      by_contra hc
+      apply hpar
+      refine ⟨?_, ?_, ?_⟩
+      · by_contra h; exact hc (Or.inr (Or.inr h))
+      · by_contra h; apply hc; right; left; intro h2; apply h; linarith
+      · by_contra h; exact hc (Or.inl h)
+    rw [segInter3_cross a b c d hn, mem_spec3Cross_iff p a _ _ _ _ _ _ _ _ _ hn]
+    constructor
+    · rintro ⟨s, t, s0, s1, t0, t1, hx, hy, hz, hx', hy', hz'⟩
+      exact ⟨⟨s, s0, s1, hx, hy, hz⟩, ⟨t, t0, t1, by linarith, by linarith, by linarith⟩⟩
+    · rintro ⟨⟨s, s0, s1, hx, hy, hz⟩, ⟨t, t0, t1, hx', hy', hz'⟩⟩
+      exact ⟨s, t, s0, s1, t0, t1, hx, hy, hz, by linarith, by linarith, by linarith⟩
+
+
+theorem P3.delta_ne {p q : P3} (h : p ≠ q) : q.x - p.x ≠ 0 ∨ q.y - p.y ≠ 0 ∨ q.z - p.z ≠ 0 := by
+  by_contra hc
+  apply h
+  have hx : q.x - p.x = 0 := by by_contra h'; exact hc (Or.inl h')
+  have hy : q.y - p.y = 0 := by by_contra h'; exact hc (Or.inr (Or.inl h'))
+  have hz : q.z - p.z = 0 := by by_contra h'; exact hc (Or.inr (Or.inr h'))
+  cases p; cases q; simp only [P3.mk.injEq] at *
+  exact ⟨by linarith, by linarith, by linarith⟩
+
+theorem onSeg3_left (p q : P3) : OnSeg3 p p q := ⟨0, le_refl _, zero_le_one, by ring, by ring, by ring⟩
+theorem onSeg3_right (p q : P3) : OnSeg3 q p q := ⟨1, zero_le_one, le_refl _, by ring, by ring, by ring⟩
+
+theorem onSeg3_swap (p a b : P3) : OnSeg3 p a b ↔ OnSeg3 p b a := by
+  constructor <;> rintro ⟨t, h0, h1, hx, hy, hz⟩ <;>
+    exact ⟨1 - t, by linarith, by linarith, by rw [hx]; ring, by rw [hy]; ring, by rw [hz]; ring⟩
+
+/-- two segments with the same point set have the same end points -/
+theorem seg_ends_of_mem_iff (p q p' q' : P3) (_hpq : p ≠ q) (hpq' : p' ≠ q')
+    (h : ∀ x, OnSeg3 x p q ↔ OnSeg3 x p' q') : (p = p' ∧ q = q') ∨ (p = q' ∧ q = p') := by
+  obtain ⟨α, a0, a1, hp⟩ := (onSeg3_iff_lineAt _ _ _).mp ((h p).mp (onSeg3_left p q))
+  obtain ⟨β, b0, b1, hq⟩ := (onSeg3_iff_lineAt _ _ _).mp ((h q).mp (onSeg3_right p q))
+  obtain ⟨γ, c0, c1, hp'⟩ := (onSeg3_iff_lineAt _ _ _).mp ((h p').mpr (onSeg3_left p' q'))
+  obtain ⟨δ, d0, d1, hq'⟩ := (onSeg3_iff_lineAt _ _ _).mp ((h q').mpr (onSeg3_right p' q'))
+  have e1 : α + γ * (β - α) = 0 := by
+    apply lineAt_inj p' q' (P3.delta_ne hpq')
+    rw [← lineAt_lineAt, ← hp, ← hq, ← hp', lineAt_zero]
+  have e2 : α + δ * (β - α) = 1 := by
+    apply lineAt_inj p' q' (P3.delta_ne hpq')
+    rw [← lineAt_lineAt, ← hp, ← hq, ← hq', lineAt_one]
+  have e3 : (δ - γ) * (β - α) = 1 := by linarith
+  rcases lt_trichotomy (β - α) 0 with hneg | hz | hpos
+  · right
+    have : β - α ≤ -1 := by nlinarith
+    have hα : α = 1 := by linarith
+    have hβ : β = 0 := by linarith
+    rw [hα, lineAt_one] at hp; rw [hβ, lineAt_zero] at hq
+    exact ⟨hp, hq⟩
+  · rw [hz] at e3; simp at e3
+  · left
+    have : 1 ≤ β - α := by nlinarith
+    have hα : α = 0 := by linarith
+    have hβ : β = 1 := by linarith
+    rw [hα, lineAt_zero] at hp; rw [hβ, lineAt_one] at hq
+    exact ⟨hp, hq⟩
+
+/-- a well-formed result is determined (up to the order of segment end points) by its point set -/
+theorem same_of_mem_iff (r s : Res P3) (hr : r.WF) (hs : s.WF) (h : ∀ x, Res.Mem3 x r ↔ Res.Mem3 x s) :
+    Res.same r s := by
+  cases r with
+  | none =>
+    cases s with
+    | none => trivial
+    | point q => exact ((h q).mpr rfl).elim
+    | segment q q' => exact ((h q).mpr (onSeg3_left q q')).elim
+    | err e => exact hs.elim
+  | point p =>
+    cases s with
+    | none => exact ((h p).mp rfl).elim
+    | point q => exact (h p).mp rfl
+    | segment q q' =>
+      have h1 : q = p := (h q).mpr (onSeg3_left q q')
+      have h2 : q' = p := (h q').mpr (onSeg3_right q q')
+      exact (hs (h1.trans h2.symm)).elim
+    | err e => exact hs.elim
+  | segment p p' =>
+    cases s with
+    | none => exact ((h p).mp (onSeg3_left p p')).elim
+    | point q =>
+      have h1 : p = q := (h p).mp (onSeg3_left p p')
+      have h2 : p' = q := (h p').mp (onSeg3_right p p')
+      exact (hr (h1.trans h2.symm)).elim
+    | segment q q' => exact seg_ends_of_mem_iff p p' q q' hr hs h
+    | err e => exact hs.elim
+  | err e => exact hr.elim
+
+theorem overlapParam_WF (a b : P3) (hd : b.x - a.x ≠ 0 ∨ b.y - a.y ≠ 0 ∨ b.z - a.z ≠ 0) (ts te : Rat) :
+    (overlapParam (lineAt a b) ts te).WF := by
+  unfold overlapParam
+  simp only []
+  split_ifs with h1 h2
+  · trivial
+  · trivial
+  · exact fun h => h2 (lineAt_inj a b hd _ _ h)
+
+theorem segInter3_WF (a b c d : P3) (nd1 : b.x - a.x ≠ 0 ∨ b.y - a.y ≠ 0 ∨ b.z - a.z ≠ 0) :
+    (segInter3 a b c d).WF := by
+  unfold segInter3
+  simp only []
+  split_ifs
+  · trivial
+  · trivial
+  · trivial
+  · trivial
+  · exact overlapParam_WF a b nd1 _ _
+
+/-! ## §7  Symmetry, and the 2-D statements through the embedding z = 0 -/
+
+theorem Res.same_symm {α : Type} {r s : Res α} (h : Res.same r s) : Res.same s r := by
+  cases r <;> cases s <;> simp only [Res.same] at h ⊢
+  · exact h.symm
+  · rcases h with ⟨h1, h2⟩ | ⟨h1, h2⟩
+    · left; exact ⟨h1.symm, h2.symm⟩
+    · right; exact ⟨h2.symm, h1.symm⟩
+  · exact h.symm
+
+theorem Res.same_trans {α : Type} {r s t : Res α} (h1 : Res.same r s) (h2 : Res.same s t) : Res.same r t := by
+  cases r <;> cases s <;> cases t <;> simp only [Res.same] at h1 h2 ⊢
+  · exact h1.trans h2
+  · rcases h1 with ⟨a1, a2⟩ | ⟨a1, a2⟩ <;> rcases h2 with ⟨b1, b2⟩ | ⟨b1, b2⟩
+    · left; exact ⟨a1.trans b1, a2.trans b2⟩
+    · right; exact ⟨a1.trans b1, a2.trans b2⟩
+    · right; exact ⟨a1.trans b2, a2.trans b1⟩
+    · left; exact ⟨a1.trans b2, a2.trans b1⟩
+  · exact h1.trans h2
+
+/-- symmetry of the 3-D specification in all argument orders (as point sets of the same kind) -/
+theorem segInter3_symm (a b c d : P3)
+    (nd1 : b.x - a.x ≠ 0 ∨ b.y - a.y ≠ 0 ∨ b.z - a.z ≠ 0)
+    (nd2 : d.x - c.x ≠ 0 ∨ d.y - c.y ≠ 0 ∨ d.z - c.z ≠ 0) :
+    Res.same (segInter3 a b c d) (segInter3 c d a b) ∧
+    Res.same (segInter3 a b c d) (segInter3 b a c d) ∧
+    Res.same (segInter3 a b c d) (segInter3 a b d c) := by
+  have nd1' : a.x - b.x ≠ 0 ∨ a.y - b.y ≠ 0 ∨ a.z - b.z ≠ 0 := by
+    rcases nd1 with h | h | h
+    · left; intro h'; apply h; linarith
+    · right; left; intro h'; apply h; linarith
+    · right; right; intro h'; apply h; linarith
+  have nd2' : c.x - d.x ≠ 0 ∨ c.y - d.y ≠ 0 ∨ c.z - d.z ≠ 0 := by
+    rcases nd2 with h | h | h
+    · left; intro h'; apply h; linarith
+    · right; left; intro h'; apply h; linarith
+    · right; right; intro h'; apply h; linarith
+  refine ⟨?_, ?_, ?_⟩
+  · apply same_of_mem_iff _ _ (segInter3_WF a b c d nd1) (segInter3_WF c d a b nd2)
+    intro x
+    rw [mem_segInter3_iff' x a b c d nd1 nd2, mem_segInter3_iff' x c d a b nd2 nd1, and_comm]
+  · apply same_of_mem_iff _ _ (segInter3_WF a b c d nd1) (segInter3_WF b a c d nd1')
+    intro x
+    rw [mem_segInter3_iff' x a b c d nd1 nd2, mem_segInter3_iff' x b a c d nd1' nd2, onSeg3_swap x a b]
+  · apply same_of_mem_iff _ _ (segInter3_WF a b c d nd1) (segInter3_WF a b d c nd1)
+    intro x
+    rw [mem_segInter3_iff' x a b c d nd1 nd2, mem_segInter3_iff' x a b d c nd1 nd2', onSeg3_swap x c d]
+
+/-! ### 2-D through the embedding `z = 0` -/
+
+def emb (p : P2) : P3 := ⟨p.x, p.y, 0⟩
+
+def Res.map {α β : Type} (f : α → β) : Res α → Res β
+  | .none => .none
+  | .point p => .point (f p)
+  | .segment p q => .segment (f p) (f q)
+  | .err e => .err e
+
+theorem emb_inj {p q : P2} (h : emb p = emb q) : p = q := by
+  cases p; cases q; simp only [emb, P3.mk.injEq] at h; simp [h.1, h.2.1]
+
+theorem overlapParam_map {α β : Type} (f : α → β) (g : Rat → α) (ts te : Rat) :
+    overlapParam (fun t => f (g t)) ts te = (overlapParam g ts te).map f := by
+  unfold overlapParam
+  simp only []
+  split_ifs <;> rfl
+
+theorem segInter3_emb (a b c d : P2) :
+    segInter3 (emb a) (emb b) (emb c) (emb d) = (segInter2 a b c d).map emb := by
+  unfold segInter3 segInter2
+  simp only [emb, sub_self, mul_zero, zero_mul, add_zero, zero_add, ne_eq,
+    not_true_eq_false, false_or, if_false]
+  by_cases hdet : (b.x - a.x) * (d.y - c.y) - (b.y - a.y) * (d.x - c.x) = 0
+  · simp only [hdet, not_true_eq_false, if_false]
+    by_cases hscl : (c.x - a.x) * (b.y - a.y) - (c.y - a.y) * (b.x - a.x) = 0
+    · simp only [hscl, not_true_eq_false, if_false]
+      exact overlapParam_map emb (fun t => (⟨a.x + t * (b.x - a.x), a.y + t * (b.y - a.y)⟩ : P2)) _ _
+    · simp only [hscl, not_false_eq_true, if_true, Res.map]
+  · simp only [hdet, not_false_eq_true, if_true]
+    have e1 : ∀ N : Rat, N * ((b.x - a.x) * (d.y - c.y) - (b.y - a.y) * (d.x - c.x)) /
+        (((b.x - a.x) * (d.y - c.y) - (b.y - a.y) * (d.x - c.x)) * ((b.x - a.x) * (d.y - c.y) - (b.y - a.y) * (d.x - c.x)))
+        = N / ((b.x - a.x) * (d.y - c.y) - (b.y - a.y) * (d.x - c.x)) := fun N => mul_div_mul_right _ _ hdet
+    simp only [e1]
+    split_ifs <;> rfl
+
+theorem onSeg2_iff_emb (p a b : P2) : OnSeg2 p a b ↔ OnSeg3 (emb p) (emb a) (emb b) := by
+  constructor
+  · rintro ⟨t, h0, h1, hx, hy⟩
+    exact ⟨t, h0, h1, hx, hy, by simp [emb]⟩
+  · rintro ⟨t, h0, h1, hx, hy, -⟩
+    exact ⟨t, h0, h1, hx, hy⟩
+
+theorem mem2_iff_emb (p : P2) (r : Res P2) : Res.Mem2 p r ↔ Res.Mem3 (emb p) (r.map emb) := by
+  cases r with
+  | none => simp [Res.Mem2, Res.Mem3, Res.map]
+  | point q =>
+    simp only [Res.Mem2, Res.Mem3, Res.map]
+    exact ⟨fun h => by rw [h], emb_inj⟩
+  | segment q q' => simp only [Res.Mem2, Res.Mem3, Res.map]; exact onSeg2_iff_emb p q q'
+  | err e => simp [Res.Mem2, Res.Mem3, Res.map]
+
+theorem same_of_map_emb {r s : Res P2} (h : Res.same (r.map emb) (s.map emb)) : Res.same r s := by
+  cases r <;> cases s <;> simp only [Res.same, Res.map] at h ⊢
+  · exact emb_inj h
+  · rcases h with ⟨h1, h2⟩ | ⟨h1, h2⟩
+    · left; exact ⟨emb_inj h1, emb_inj h2⟩
+    · right; exact ⟨emb_inj h1, emb_inj h2⟩
+  · exact h
+
+theorem emb_delta {a b : P2} (h : b.x - a.x ≠ 0 ∨ b.y - a.y ≠ 0) :
+    (emb b).x - (emb a).x ≠ 0 ∨ (emb b).y - (emb a).y ≠ 0 ∨ (emb b).z - (emb a).z ≠ 0 := by
+  rcases h with h | h
+  · left; exact h
+  · right; left; exact h
+
+theorem mem_segInter2_iff' (p a b c d : P2) (nd1 : b.x - a.x ≠ 0 ∨ b.y - a.y ≠ 0) (nd2 : d.x - c.x ≠ 0 ∨ d.y - c.y ≠ 0) :
+    Res.Mem2 p (segInter2 a b c d) ↔ OnSeg2 p a b ∧ OnSeg2 p c d := by
+  rw [mem2_iff_emb, ← segInter3_emb, mem_segInter3_iff' _ _ _ _ _ (emb_delta nd1) (emb_delta nd2),
+    onSeg2_iff_emb, onSeg2_iff_emb]
+
+theorem segInter2_symm (a b c d : P2) (nd1 : b.x - a.x ≠ 0 ∨ b.y - a.y ≠ 0) (nd2 : d.x - c.x ≠ 0 ∨ d.y - c.y ≠ 0) :
+    Res.same (segInter2 a b c d) (segInter2 c d a b) ∧
+    Res.same (segInter2 a b c d) (segInter2 b a c d) ∧
+    Res.same (segInter2 a b c d) (segInter2 a b d c) := by
+  obtain ⟨h1, h2, h3⟩ := segInter3_symm (emb a) (emb b) (emb c) (emb d) (emb_delta nd1) (emb_delta nd2)
+  simp only [segInter3_emb] at h1 h2 h3
+  exact ⟨same_of_map_emb h1, same_of_map_emb h2, same_of_map_emb h3⟩
+
+theorem segInter2_WF (a b c d : P2) (nd1 : b.x - a.x ≠ 0 ∨ b.y - a.y ≠ 0) : (segInter2 a b c d).WF := by
+  have := segInter3_WF (emb a) (emb b) (emb c) (emb d) (emb_delta nd1)
+  rw [segInter3_emb] at this
+  cases h : segInter2 a b c d with
+  | none => trivial
+  | point q => trivial
+  | segment q q' =>
+    rw [h] at this
+    simp only [Res.map, Res.WF] at this ⊢
+    exact fun e => this (by rw [e])
+  | err e => rw [h] at this; exact this
+
+
 end PorepyVerif.C28
